@@ -49,40 +49,60 @@ Proof.
 Qed.
 
 (* ---- TLS 1.2 AEAD with explicit nonce ---- *)
+Lemma tls12_aead_record_t rt d srv a key salt version st explicit content st' r : 0 <= rt < 256 ->
+  cur_key d srv = Some key -> cur_iv d srv = Some salt -> cur_seq d srv = ss_seq st -> 0 <= ss_seq st < 2 ^ 64 ->
+  len version = 2 -> len explicit = 8 -> len content < 65536 -> 0 <= d_tag_length d -> d_compression d = 0 ->
+  send12_aead_t C rt a (d_tag_length d) key salt version st explicit content = Ok (st', r) ->
+  decrypt_tls12_aead C d r srv a = Ok (set_seq d srv (ss_seq st + 1), content) /\ ss_seq st' = ss_seq st + 1 /\ r_type r = rt.
+Proof.
+  intros Hrt Hk Hi Hs Hsb Hv He Hlen Htag Hz H. unfold send12_aead_t in H.
+  destruct (c_aead_enc C a _ key _ _ _) as [ct|] eqn:E; [|discriminate]. cbn [bind] in H. injection H as <- <-.
+  destruct (aead_rt C L _ _ _ _ _ _ _ E) as [Hdec Hl]. split; [|split; reflexivity].
+  unfold decrypt_tls12_aead, mk_record. cbn [r_body r_raw].
+  rewrite Hk, Hi. cbn [byte_of bind]. rewrite Hs. rewrite to_be_ok by lia. cbn [bind].
+  rewrite len_app, He, Hl. replace (8 + (len content + d_tag_length d) - 8 - d_tag_length d) with (len content) by lia.
+  pose proof (len_nonneg content). rewrite to_be_ok by lia. cbn [bind].
+  rewrite (slice_prefix explicit ct 8) by (symmetry; exact He). rewrite (slice_from_prefix explicit ct 8) by (symmetry; exact He).
+  assert (Hraw : forall x, slice ([rt] ++ version ++ x) 0 3 = [rt] ++ version).
+  { intros x. rewrite app_assoc. apply slice_prefix. rewrite len_app, Hv. reflexivity. }
+  rewrite Hraw. rewrite <- app_assoc. rewrite Hdec. cbn [bind]. unfold inflate_if. cbn [set_seq d_compression]. rewrite Hz. reflexivity.
+Qed.
+
 Lemma tls12_aead_record d srv a key salt version st explicit content st' r :
   cur_key d srv = Some key -> cur_iv d srv = Some salt -> cur_seq d srv = ss_seq st -> 0 <= ss_seq st < 2 ^ 64 ->
   len version = 2 -> len explicit = 8 -> len content < 65536 -> 0 <= d_tag_length d -> d_compression d = 0 ->
   send12_aead C a (d_tag_length d) key salt version st explicit content = Ok (st', r) ->
   decrypt_tls12_aead C d r srv a = Ok (set_seq d srv (ss_seq st + 1), content) /\ ss_seq st' = ss_seq st + 1.
 Proof.
-  intros Hk Hi Hs Hsb Hv He Hlen Htag Hz H. unfold send12_aead in H.
-  destruct (c_aead_enc C a _ key _ _ _) as [ct|] eqn:E; [|discriminate]. cbn [bind] in H. injection H as <- <-.
-  destruct (aead_rt C L _ _ _ _ _ _ _ E) as [Hdec Hl]. split; [|reflexivity].
-  unfold decrypt_tls12_aead, mk_record. cbn [r_body r_raw].
-  rewrite Hk, Hi. cbn [byte_of bind]. rewrite Hs. rewrite to_be_ok by lia. cbn [bind].
-  rewrite len_app, He, Hl. replace (8 + (len content + d_tag_length d) - 8 - d_tag_length d) with (len content) by lia.
-  pose proof (len_nonneg content). rewrite to_be_ok by lia. cbn [bind].
-  rewrite (slice_prefix explicit ct 8) by (symmetry; exact He). rewrite (slice_from_prefix explicit ct 8) by (symmetry; exact He).
-  assert (Hraw : forall x, slice ([23] ++ version ++ x) 0 3 = [23] ++ version).
-  { intros x. rewrite app_assoc. apply slice_prefix. rewrite len_app, Hv. reflexivity. }
-  rewrite Hraw. rewrite <- app_assoc. rewrite Hdec. cbn [bind]. unfold inflate_if. cbn [set_seq d_compression]. rewrite Hz. reflexivity.
+  intros Hk Hi Hs Hsb Hv He Hlen Htag Hz H.
+  destruct (tls12_aead_record_t 23 d srv a key salt version st explicit content st' r ltac:(lia) Hk Hi Hs Hsb Hv He Hlen Htag Hz H) as (H1 & H2 & _). split; assumption.
 Qed.
 
 (* ---- TLS 1.2 ChaCha20-Poly1305 ---- *)
+Lemma tls12_chacha_record_t rt d srv key iv version st content st' r : 0 <= rt < 256 ->
+  cur_key d srv = Some key -> cur_iv d srv = Some iv -> 8 <= len iv -> cur_seq d srv = ss_seq st -> 0 <= ss_seq st < 2 ^ 64 ->
+  len version = 2 -> len content < 65536 -> d_compression d = 0 ->
+  send12_chacha_t C rt key iv version st content = Ok (st', r) ->
+  decrypt_tls12_chacha20 C d r srv = Ok (set_seq d srv (ss_seq st + 1), content) /\ ss_seq st' = ss_seq st + 1 /\ r_type r = rt.
+Proof.
+  intros Hrt Hk Hi Hil Hs Hsb Hv Hlen Hz H. unfold send12_chacha_t in H.
+  destruct (c_aead_enc C _ _ key _ _ _) as [ct|] eqn:E; [|discriminate]. cbn [bind] in H. injection H as <- <-.
+  destruct (aead_rt C L _ _ _ _ _ _ _ E) as [Hdec Hl]. split; [|split; reflexivity].
+  unfold decrypt_tls12_chacha20, mk_record. cbn [r_body r_type r_version].
+  rewrite Hk, Hi. cbn [byte_of bind]. rewrite Hs. rewrite to_be_ok by lia. cbn [bind]. rewrite (to_be_1 rt) by lia. cbn [bind].
+  rewrite Hl. replace (len content + 16 - 16) with (len content) by lia. pose proof (len_nonneg content). rewrite to_be_ok by lia. cbn [bind].
+  unfold byte_xor. rewrite len_to_be_total by lia. replace (len iv - 8 <? 0) with false by (symmetry; apply Z.ltb_ge; lia). cbn [bind].
+  rewrite Hdec. cbn [bind]. unfold inflate_if. cbn [set_seq d_compression]. rewrite Hz. reflexivity.
+Qed.
+
 Lemma tls12_chacha_record d srv key iv version st content st' r :
   cur_key d srv = Some key -> cur_iv d srv = Some iv -> 8 <= len iv -> cur_seq d srv = ss_seq st -> 0 <= ss_seq st < 2 ^ 64 ->
   len version = 2 -> len content < 65536 -> d_compression d = 0 ->
   send12_chacha C key iv version st content = Ok (st', r) ->
   decrypt_tls12_chacha20 C d r srv = Ok (set_seq d srv (ss_seq st + 1), content) /\ ss_seq st' = ss_seq st + 1.
 Proof.
-  intros Hk Hi Hil Hs Hsb Hv Hlen Hz H. unfold send12_chacha in H.
-  destruct (c_aead_enc C _ _ key _ _ _) as [ct|] eqn:E; [|discriminate]. cbn [bind] in H. injection H as <- <-.
-  destruct (aead_rt C L _ _ _ _ _ _ _ E) as [Hdec Hl]. split; [|reflexivity].
-  unfold decrypt_tls12_chacha20, mk_record. cbn [r_body r_type r_version].
-  rewrite Hk, Hi. cbn [byte_of bind]. rewrite Hs. rewrite to_be_ok by lia. cbn [bind]. rewrite (to_be_1 23) by lia. cbn [bind].
-  rewrite Hl. replace (len content + 16 - 16) with (len content) by lia. pose proof (len_nonneg content). rewrite to_be_ok by lia. cbn [bind].
-  unfold byte_xor. rewrite len_to_be_total by lia. replace (len iv - 8 <? 0) with false by (symmetry; apply Z.ltb_ge; lia). cbn [bind].
-  rewrite Hdec. cbn [bind]. unfold inflate_if. cbn [set_seq d_compression]. rewrite Hz. reflexivity.
+  intros Hk Hi Hil Hs Hsb Hv Hlen Hz H.
+  destruct (tls12_chacha_record_t 23 d srv key iv version st content st' r ltac:(lia) Hk Hi Hil Hs Hsb Hv Hlen Hz H) as (H1 & H2 & _). split; assumption.
 Qed.
 
 (* ---- RC4 ---- *)
